@@ -2,7 +2,10 @@
 (* Scenario generator for C34 (exploration level: TLC enumerates the class    *)
 (* product and, in AddrRecordTrace, is the oracle).  One scenario per         *)
 (* (acceptance path, key, underlay, network id): the honest record followed   *)
-(* by every single-field mutation of it.                                      *)
+(* by every single-field mutation of it, the two-field mutations that move   *)
+(* the underlay/overlay boundary while the signed bytes stay the same, and    *)
+(* the records the key signed itself for an overlay that is not its own       *)
+(* (other lengths, a changed byte, another key's overlay).                    *)
 EXTENDS AddrRecord, SequencesExt, Json, IOUtils
 VARIABLE hist
 
@@ -14,7 +17,9 @@ Thorough == "VERIF_THOROUGH" \in DOMAIN IOEnv /\ IOEnv.VERIF_THOROUGH = "1"
 
 Pos(S) == {"b" \o ToString(i) : i \in S}
 GSigPos == IF Thorough THEN Pos(0..64) ELSE SigBytePositions
-GOvDam  == IF Thorough THEN Pos(0..31) \cup {"short31", "long33", "empty"} ELSE OvDamages
+GOvDam  == IF Thorough THEN Pos(0..31) \cup {"short31", "long33", "empty", "tail31", "pre1", "prez", "pre42"} ELSE OvDamages
+GShift  == Shifts
+GClaim  == IF Thorough THEN Claims \cup {"prez", "empty", "b15", "b31"} ELSE Claims
 GNetDam == IF Thorough THEN Pos(0..63) \cup {"hi32"} ELSE NetDamages
 GUnDam  == IF Thorough THEN Pos(0..7) \cup {"blast"} ELSE UnDamages
 
@@ -22,7 +27,7 @@ GUnDam  == IF Thorough THEN Pos(0..7) \cup {"blast"} ELSE UnDamages
 \* routetab FindUnderlay reply; routetab underlay list carried by a route response
 Paths == {"parse", "handle", "handshake", "underlay", "ulist"}
 
-OfBase(k, u, n) == DescriptorsOf([k |-> k, u |-> u, n |-> n], GSigPos, GOvDam, GUnDam, GNetDam)
+OfBase(k, u, n) == DescriptorsOf([k |-> k, u |-> u, n |-> n], GSigPos, GOvDam, GUnDam, GNetDam, GShift, GClaim)
 
 \* the handshake messages carry the network id a second time, as a field of the Ack
 NetField(k, u, n) == {[k |-> k, u |-> u, n |-> n, vn |-> n, mut |-> "net_field", mk |-> 0, mu |-> 0, how |-> "none"]}
